@@ -158,6 +158,29 @@ pub fn check(c: &DetCase, probe: &Probe) -> Verdict {
         }
         probe.class("with-whole-name-and-unsupported-files-and-file-like-directories");
     }
+    // twin files: below the directories a run may start from, an UNCHANGED file under the same relative path as a
+    // file the diff names (a package with its own README / config next to the repository's): the diff's paths are
+    // relative to the repository root wherever blockwatch is started
+    if c.perm_seed & 8 != 0 && m.mode.is_some() && !m.has_scripts {
+        let mut dirs: Vec<String> = m.pair.files.iter().filter_map(|(p, _, _, _)| p.rsplit_once('/').map(|x| x.0.to_string())).filter(|d| !d.starts_with('@')).collect();
+        dirs.sort();
+        dirs.dedup();
+        let named: Vec<(String, String)> = m.pair.files.iter().filter(|(p, old, new, _)| !p.starts_with('@') && new.is_some() && old != new).take(3).map(|(p, old, new, _)| (p.clone(), old.clone().or(new.clone()).unwrap())).collect();
+        let mut twins = 0;
+        for d in dirs.iter().take(3) {
+            for (p, text) in &named {
+                let twin = format!("{d}/{p}");
+                if m.pair.files.iter().any(|(q, _, _, _)| *q == twin || q.starts_with(&format!("{twin}/")) || twin.starts_with(&format!("{q}/"))) {
+                    continue;
+                }
+                m.pair.files.push((twin, Some(text.clone()), Some(text.clone()), None));
+                twins += 1;
+            }
+        }
+        if twins > 0 {
+            probe.class("with-twin-files-below-the-start-directories");
+        }
+    }
     let mut baseline: Option<(String, String)> = None; // (validate, list)
     let mut variants = 0u64;
     let mut description = String::new();
@@ -267,7 +290,7 @@ pub fn case_strategy() -> BoxedStrategy<DetCase> {
 }
 
 pub fn run(run: &mut Run) {
-    run.rule = "random: cases drawn from the generators of C11 (rule/severity mixes, scan or new-file diff), C01 (drift: edit scripts and real git diffs in generated modes) and C02 (touched blocks with rules), well-formed rules only, in half of the cases together with a Makefile, go.mod and .d.ts file holding violating blocks next to unsupported LICENSE / AUTHORS / deps.mod files; each case is materialised twice (files created in forward and in reverse order, fresh repositories) and run as `validate` and as `list` under a matrix: 3 repetitions (fresh processes => fresh hash seeds), pinned to one, two and three cores, TOKIO_WORKER_THREADS 1 and 16, the diff's file sections rotated/reversed, and started from up to 2 sub-directories when no rule names a script path. Every variant must give the same exit status and the same diagnostics / listing (compared after sorting). Evaluations count runs. Non-trivial = >= 2 files and a non-empty diagnostics report.".into();
+    run.rule = "random: cases drawn from the generators of C11 (rule/severity mixes, scan or new-file diff), C01 (drift: edit scripts and real git diffs in generated modes) and C02 (touched blocks with rules), well-formed rules only, in half of the cases together with a Makefile, go.mod and .d.ts file holding violating blocks next to unsupported LICENSE / AUTHORS / deps.mod files; each case is materialised twice (files created in forward and in reverse order, fresh repositories) and run as `validate` and as `list` under a matrix: 3 repetitions (fresh processes => fresh hash seeds), pinned to one, two and three cores, TOKIO_WORKER_THREADS 1 and 16, the diff's file sections rotated/reversed, and started from up to 2 sub-directories when no rule names a script path (in half of the diff-mode cases those directories hold UNCHANGED twin files under the same relative path as files the diff names). Every variant must give the same exit status and the same diagnostics / listing (compared after sorting). Evaluations count runs. Non-trivial = >= 2 files and a non-empty diagnostics report.".into();
     run.assumptions = vec!["hash seeds and thread schedules are sampled by repetition, not enumerated".into(), "error texts of failing runs are compared by exit status only".into()];
     run.shrink_iters = 60;
     run.random("matrix", run.tier.pick(250, 5000), case_strategy, check);
